@@ -40,6 +40,7 @@ def unit(name, props, src, **kw):
 # ------------------------------------------------------------------------------------------
 PROPERTY_META["C18"] = {
     "level": "proof",
+    "technique": "contract-based deductive verification with CBMC code contracts: __CPROVER_requires/ensures/assigns on the real functions and guarded in-source loop invariants/decreases with a ghost reference automaton, enforced function by function with goto-instrument --dfcc --enforce-contract / --replace-call-with-contract / --apply-loop-contracts",
     "level_text": ("Unbounded proof: the byte-wise state machine is proved equal to the RFC 3629 reference automaton for every "
                    "checker state and byte (loop-free); every sequence entry point (byte, text, 32/64-bit word fast paths) is proved "
                    "by loop contracts against a ghost automaton that reads the text through its own index, for every length up to "
@@ -420,23 +421,31 @@ PROPERTY_META["C09"] = {
     "explanation": "C09: ghost-stream harness contracts on get_read_ptr, internal_read_until, fill_buffer, reorganize_read_buffer.",
     "not_decided": ["socket_peer.c / parse.c message boundary", "event batching", "production buffer size"],
 }
-PROPERTY_META["C02"] = {
-    "level": "proof",
-    "level_text": ("response.c: every response builder is proved (over the executable cJSON model, every id type and every double) to answer exactly string/number ids with an equal id and exactly one of result/error, to build nothing for other id types, "
-                   "and to own the given result exactly once; no JSON node is left behind."),
-    "level_note": ("Only response construction is covered. The dispatcher (parse.c: one response per request, none for notifications / incoming responses, batch order) and the twelve handlers are NOT covered yet. "
-                   "cJSON is an assumed executable model; id strings <= 3 characters."),
-    "explanation": "C02: harness contracts on create_error_response, create_result_response, *_from_request.",
-    "not_decided": ["parse_json_rpc / parse_json_array dispatch", "handlers' response ownership", "allocation-failure paths (thorough tier, C15)"],
-}
-PROPERTY_META["C08"] = {
-    "level": "proof",
-    "level_text": ("init_peer is proved to leave a new peer without groups, user and name from ARBITRARY (uninitialised) memory; get_groups sets bit j iff a listed name equals registered group j (up to the full 32 groups) and "
-                   "has_access is the non-empty intersection when a credential file is loaded."),
-    "level_note": ("Covered: peer initialisation and the group algebra. NOT covered yet: handle_authentication (failed authentication changes nothing), the checks at fetch/get/set/call, password flow, origin classification. cJSON is an assumed model."),
-    "explanation": "C08: harness contracts on init_peer, get_groups, has_access.",
-    "not_decided": ["authenticate.c", "auth_file.c", "access checks in fetch.c/element.c", "is_localhost"],
-}
+PROPERTY_META["C02"] = {'level': 'proof',
+ 'level_text': 'JSON-RPC discipline, per function over the executable cJSON model: (1) every response builder answers exactly string/number ids with an equal id and exactly one '
+               'of result/error, builds nothing for other id types and owns the given result exactly once; (2) the dispatcher parse_json_rpc calls exactly one handler per request '
+               'object, selects it by the method name, sends each built response exactly once to the requesting peer only and deletes it, never answers incoming result/error '
+               'objects (they are routed) nor notifications in error; (3) batch members are processed in order until the first non-object; (4) the element handlers (add, change, '
+               'remove, set/call), add_fetch_to_peer and the router paths (reply, timeout, shutdown) build exactly one response per request and address it to the right peer.',
+ 'level_note': 'The twelve handlers are stubs in the dispatcher unit and are themselves covered only for element.c, router.c, add_fetch_to_peer and authenticate; config.c, '
+               'info.c, get and unfetch are not covered. cJSON (parse, print, tree operations) is an assumed executable model; id strings are <= 3 characters; batches <= 3 '
+               'members.',
+ 'explanation': 'C02: harness contracts on response.c, parse_json_rpc/parse_json_array/send_response, the element handlers, add_fetch_to_peer, handle_routing_response / '
+                'request_timeout_handler / shutdown paths.',
+ 'not_decided': ['config/info/get/unfetch handlers', 'the vendored JSON parser itself']}
+PROPERTY_META["C08"] = {'level': 'proof',
+ 'level_text': 'Access control, per function: init_peer leaves a new peer without groups, user and name from ARBITRARY (uninitialised) memory; get_groups sets bit j iff a listed '
+               'name EQUALS registered group j (names of 1-2 characters, up to the full 32 groups; prefix-related names included) and has_access is the non-empty intersection; '
+               "handle_authentication changes nothing unless the request is well-formed, made before any fetch and the credentials are accepted, then assigns exactly the user's "
+               "three group sets and the user name, and never passes the password to a response or a copy; add records the element's access groups; set/call are routed only when "
+               'the caller shares a set group resp. call group; a fetch meets an element only with a shared fetch group; change_password is carried out only for the authorised '
+               'cases and wipes the password buffer.',
+ 'level_note': 'Not covered: credentials_ok / load_passwd_data (crypt, file parsing), get_elements, origin classification (is_localhost) and the local-only add switch '
+               '(compile-time constant false in the verified configuration). Password flow is tracked at pointer level only. cJSON is an assumed model; credential store and '
+               'response builders are stubs in the authenticate unit.',
+ 'explanation': 'C08: harness contracts on init_peer, get_groups, has_access, handle_authentication, add_element_to_peer (access lists), set_or_call, '
+                'add_fetch_to_state_and_notify, change_password.',
+ 'not_decided': ['credentials_ok', 'get', 'connection origin', 'all sequences on every transport (only per-call invariants)']}
 
 # ------------------------------------------------------------------------------------------
 # C14 deadlines (timer.c), C07 allocation accounting (alloc.c)
@@ -464,24 +473,26 @@ unit("timer.spec", ["C14"], "units/u_timerlinux.c", entry="h_timer_lifecycle", f
      defines=["TIMER_SPEC=1"], expect_tags=["C14.timer.deadline-is-exactly-the-requested-nanoseconds"], timeout=1800, goto_instrument_args=["--value-set-fi-fp-removal"],
      assumes=["64-bit division by 10^9: may not finish (then undecided)"])
 
-PROPERTY_META["C14"] = {
-    "level": "proof",
-    "level_text": ("get_timeout_in_nsec is proved over every JSON type and every double (incl. +-inf): absent -> default; non-number or < 0.001 s -> refused with an invalid-params error and 0; "
-                   "otherwise the nanosecond value of the given timeout (no undefined conversion, no float overflow)."),
-    "level_note": ("Only the value/refusal clause is covered. NOT covered: precedence (request > element > configured default) in element.c/router.c, timer arming and cancellation, 'never early' and the "
-                   "same-batch reply/expiry hazard in eventloop_epoll.c (kernel timing is outside this family altogether)."),
-    "explanation": "C14: loop-free full-domain harness contract on get_timeout_in_nsec / convert_seconds_to_nsec (cbmc IEEE-754 semantics, conversion and float-overflow checks on).",
-    "not_decided": ["timeout precedence", "timer lifecycle", "event-batch hazard", "wall-clock clauses"],
-}
-PROPERTY_META["C07"] = {
-    "level": "proof",
-    "level_text": ("alloc.c: for every accounted heap size up to the cap and every request (malloc and calloc, the OS allocation may fail): a failed allocation accounts nothing, a successful one accounts exactly size + header, "
-                   "never exceeds the configured cap, returns a block large enough (zeroed for calloc), and cjet_free returns exactly the accounted amount."),
-    "level_note": ("Only the allocator's accounting is covered. NOT covered: descriptor and timer reclamation, peer count, SIGTERM shutdown, double close - the history-level clauses of C07 are outside per-function contracts "
-                   "(request sizes are bounded by 2^32 bytes / 2^16 members, the call sites' range)."),
-    "explanation": "C07: loop-free harness contract on cjet_malloc / cjet_calloc / cjet_free.",
-    "not_decided": ["timerfd / descriptor lifecycle", "shutdown", "whole-run balance"],
-}
+PROPERTY_META["C14"] = {'level': 'proof',
+ 'level_text': 'Deadlines, per function: get_timeout_in_nsec over every JSON type and every double (refusal below 1 ms / non-numeric / not representable; exact nanosecond value '
+               "otherwise; absent -> default); precedence: add stores the given timeout else the configured default, set/call hand the request's timeout to "
+               "setup_routing_information which arms the timer with it, else with the element's; refused set-ups leave no armed timer; timer start/cancel/expiry/destroy life "
+               'cycle on the real timer_linux.c (one-shot, handler called at most once, deregistered with the loop object and closed once); request_timeout_handler removes the '
+               'entry, sends exactly one timeout error to the caller and releases the record; a cancelled timer does nothing; the same-batch reply/expiry hazard in handle_events '
+               'is decided NEGATIVELY (known finding KF-C14-1, native replay under ASan).',
+ 'level_note': "'No earlier than the deadline / as soon as the loop next runs' is kernel timing and outside this family. The nanosecond split into seconds/nanoseconds is proved "
+               'for one concrete deadline in the quick tier (64-bit division by a constant: best-effort in the thorough tier). Event batches of <= 3 events.',
+ 'explanation': 'C14: harness contracts on get_timeout_in_nsec, init_element/set_or_call (precedence), setup_routing_information, request_timeout_handler, '
+                'cjet_timer_init/start/cancel/destroy, handle_events.',
+ 'not_decided': ['wall-clock clauses', 'full 64-bit range of the seconds/nanoseconds split (thorough, best effort)']}
+PROPERTY_META["C07"] = {'level': 'proof',
+ 'level_text': 'Reclamation, per function: allocator accounting exact and capped (OS allocation may fail); the timer life cycle registers, deregisters (with the loop object) and '
+               'closes its descriptor exactly once; routed-request records and their timers are released exactly once on reply, timeout, owner shutdown, caller disconnect and '
+               'refused set-up; re-authentication releases the previous user name; peer teardown releases the names; a refused HTTP exchange releases the connection once.',
+ 'level_note': 'The history-level clauses (heap/descriptors/timers back at baseline after ALL connections are gone, SIGTERM shutdown, never closing a descriptor twice across '
+               'modules) are outside per-function contracts and not decided; known finding KF-C13-1 (peer left behind by a rejected request line) is reported under C13/C07.',
+ 'explanation': 'C07: harness contracts on cjet_malloc/calloc/free, timer_linux.c, router.c release paths, handle_authentication, free_peer_resources, read_start_line.',
+ 'not_decided': ['whole-run balance', 'signal handling', 'descriptor hygiene across modules']}
 PROPERTY_META["C06"] = {
     "level": "proof",
     "level_text": ("Function-wise memory safety: cbmc's bounds / pointer / pointer-arithmetic / signed-overflow / shift checks are discharged for the covered functions under their representation invariants only: "
@@ -573,4 +584,7 @@ PROPERTY_META["C15"] = {
     "explanation": "C15: the harness contracts of the listed units with every allocation (malloc/calloc and every cJSON creator / key copy) allowed to fail independently; cbmc --memory-leak-check and the model's live-node counter as oracles.",
     "not_decided": ["element/fetch/router handlers under allocation failure (quick tier)", "heap-cap induced failures at daemon level"],
 }
+NOT_APPLICABLE["C19"] = ("permessage-deflate round trip: the lossless-round-trip clause quantifies over zlib's inflate/deflate (vendored, ~10 kLOC of bit-level C), which no contract within reach of cbmc can express or decide; "
+                         "the remaining clauses (extension negotiation stays within the offered/allowed parameters, buffer arithmetic of reassembly) have a bounded unit (ext.offer, thorough tier, best effort) that does not finish reliably, "
+                         "so no claim is made for C19")
 PENDING = {}
